@@ -147,6 +147,106 @@ Definition s_keyFilter (k : N) (s : stream val) : stream val :=
                       | Bad e => [Bad e]
                       end) s.
 
+(* ---------------------------------------------------------------- run-time type checks *)
+(* an edge (or branch, or END) whose start node's output type is an interface (any) gets a
+   run-time check of the end node's input type: defaultValueChecker (value form) /
+   defaultStreamConverter (chunk-wise) of compose/generic_helper.go.  [want_map]: the
+   expected type is map[string]any (false: string). *)
+Definition is_map (x : val) : bool := match x with VM _ => true | VS _ => false end.
+
+Definition v_check (want_map : bool) (x : val) : res val :=
+  if Bool.eqb (is_map x) want_map then Ok x else Err e_type.
+
+Definition s_check (want_map : bool) (s : stream val) : stream val :=
+  map (fun it => match it with
+                 | Val x => if Bool.eqb (is_map x) want_map then Val x else Bad e_type
+                 | Bad e => Bad e
+                 end) s.
+
+(* before commit c44e450 (finding F-C04d, fixed): ConcatItems at an interface chunk type
+   looked for a concat function of the interface type itself; two or more chunks (a non-nil
+   interface value is never "zero") could not be concatenated.  [sconcat] only calls the
+   concatenation with two or more items. *)
+Definition vconcat_any_v0 (_ : list val) : res val := Err e_type.
+
+(* ---------------------------------------------------------------- field mappings (Workflow) *)
+(* compose/field_mapping.go: fieldMap (value form, a missing map key is an error) /
+   streamFieldMap (chunk-wise with allowMapKeyNotFound: a chunk that lacks the key maps
+   nothing), followed by the successor's input converter convertTo (an empty mapping result
+   becomes the zero value of the input type: "" / empty map).
+   [FTo es]: the successor's input is a map; every entry (from, to) puts the predecessor's
+   whole output (from = None: ToField) or its field `from` (MapFields) under key `to`.
+   [FTake a]: the successor's input is the predecessor's field a (FromField). *)
+Inductive fmap : Type :=
+| FTo (es : list (option N * N))
+| FTake (a : N).
+
+(* raw entries one chunk (or the whole value, [strict]) contributes; None = a value of the
+   wrong type for this mapping *)
+Fixpoint fm_entries (strict : bool) (es : list (option N * N)) (x : val) : res amap :=
+  match es with
+  | [] => Ok []
+  | (from, to) :: es' =>
+      do e <- match from, x with
+              | None, VS s => Ok [(to, s)]
+              | Some a, VM m =>
+                  if mhas a m then Ok [(to, mgather a m)]
+                  else if strict then Err e_nokey else Ok []
+              | _, _ => Err e_type
+              end;
+      do r <- fm_entries strict es' x;
+      Ok (e ++ r)
+  end.
+
+Definition v_fmap (f : fmap) (x : val) : res val :=
+  match f with
+  | FTo es => do r <- fm_entries true es x; Ok (VM (ins_all r []))
+  | FTake a => v_getKey a x
+  end.
+
+Definition s_fmap (f : fmap) (s : stream val) : stream val :=
+  map (fun it => match it with
+                 | Bad e => Bad e
+                 | Val x =>
+                     match f with
+                     | FTo es => match fm_entries false es x with
+                                 | Ok r => Val (VM (ins_all r []))
+                                 | _ => Bad e_type
+                                 end
+                     | FTake a => match x with
+                                  | VM m => Val (VS (mgather a m))
+                                  | VS _ => Bad e_type
+                                  end
+                     end
+                 end) s.
+
+(* the keys a mapping reads *)
+Definition fmap_from (f : fmap) : list N :=
+  match f with
+  | FTo es => flat_map (fun e => match fst e with Some a => [a] | None => [] end) es
+  | FTake a => [a]
+  end.
+
+(* every key the mapping reads is there (the other case is finding F-C04c) *)
+Definition fmap_dom (f : fmap) (x : val) : bool :=
+  match x with
+  | VM m => forallb (fun a => mhas a m) (fmap_from f)
+  | VS _ => true
+  end.
+
+Fixpoint nodup_N (l : list N) : bool :=
+  match l with
+  | [] => true
+  | a :: l' => negb (existsb (N.eqb a) l') && nodup_N l'
+  end.
+
+(* Workflow.Compile rejects two mappings into the same field; a mapping list is not empty *)
+Definition fmap_wf (f : fmap) : bool :=
+  match f with
+  | FTo es => negb (match es with [] => true | _ => false end) && nodup_N (map snd es)
+  | FTake _ => true
+  end.
+
 (* t is an interleaving of the sources ls: it can be consumed by repeatedly taking the
    head of one of the sources (MergeStreamReaders keeps each source's own order and
    delivers every item of every source, error items included). *)
